@@ -841,7 +841,7 @@ def run(ctx):
                        "go-csv behaviour after a quoting error inside a record is not modelled (cases skipped and counted)",
                        "comma/IFS bytes below 0x80"]
     forbidden_gate(ctx, ["Base", "C01"])
-    ok, why = check_props(ctx, "C01/Props.v", ["C01/Harness.vo", "C01/ProofsDkvp.vo", "C01/ProofsTsv.vo", "C01/ProofsCsv.vo", "C01/ProofsCsv2.vo", "C01/ProofsJson.vo", "C01/ProofsXtab.vo", "C01/ProofsLite.vo"])
+    ok, why = check_props(ctx, "C01/Props.v", ["C01/Harness.vo", "C01/ProofsDkvp.vo", "C01/ProofsTsv.vo", "C01/ProofsCsv.vo", "C01/ProofsCsv2.vo", "C01/ProofsJson.vo", "C01/ProofsXtab.vo", "C01/ProofsLite.vo", "C01/ProofsPprint.vo", "C01/ProofsBarred.vo", "C01/ProofsMd.vo"])
 
     # ---- generate and run the writers
     per_fmt = {"tsv": 180, "csv": 240, "dkvp": 120, "nidx": 70, "json": 120, "xtab": 120, "csvlite": 140, "pprint": 220, "markdown": 120} if quick else {"tsv": 4000, "csv": 5000, "dkvp": 3000, "nidx": 1500, "json": 3000, "xtab": 2500, "csvlite": 2500, "pprint": 4000, "markdown": 2500}
@@ -1012,6 +1012,14 @@ WITNESSES = [
     ("tsv-single-column-empty-cell", ["--otsv"], ["--itsv"], [[(b"a", b"")]]),
     ("csv-reader-crlf-in-quoted-field-to-lf", ["--ocsv"], ["--icsv"], [[(b"a", b"x\r\ny")]]),
     ("csv-ors-crlf-writer-drops-cr", ["--ocsv", "--ors", "crlf"], ["--icsv"], [[(b"a", b"x\ry")]]),
+    ("markdown-escaped-bar-not-unescaped", ["--omd"], ["--imd"], [[(b"a", b"x|y"), (b"b", b"2")]]),
+    ("markdown-dash-only-row-dropped", ["--omd"], ["--imd"], [[(b"a", b"-"), (b"b", b"")]]),
+    # representational limits of PPRINT (theorems C01_pprint_*_refuted): must stay as modelled
+]
+# reader-only regression probes of repaired defects: (name, read args, text, expected records)
+READ_PROBES = [
+    ("regression-of-ff74c4ac8-barred-implicit-header-panic", ["--ipprint", "--barred-input", "--implicit-csv-header"], b"abc\n| x | y |\n", [[(b"1", b"x"), (b"2", b"y")]]),
+    ("regression-of-a96f6ff95-multi-char-irs-drops-chunk", ["--idkvp", "--irs", "usv_rs"], b"a=x\xc3\x9ey\xe2\x90\x9eb=2\xe2\x90\x9e", [[(b"a", b"x\xc3\x9ey")], [(b"b", b"2")]]),
 ]
 
 
@@ -1029,6 +1037,12 @@ def probe_witnesses(ctx):
                            "recs_hex": [[(k.hex(), v.hex()) for k, v in r] for r in recs], "written_hex": out.hex(), "status": kind,
                            "observed": None if got is None else [[(k.hex(), v.hex()) for k, v in r] for r in got],
                            "stderr": rerr.decode("latin1")[-300:], "expected": "the records written", "input": repr(recs)})
+    for (name, rargs, text, want), (kind, got, rerr) in zip(READ_PROBES, impl_read_many(ctx, [(p[1], p[2]) for p in READ_PROBES])):
+        ctx.count(("read-probe", name))
+        status[name] = "holds" if (kind == "ok" and got == want) else "fails"
+        if status[name] == "fails":
+            ctx.violation({"broken": "reader regression probe", "class": name, "read_args": rargs, "input_hex": text.hex(), "status": kind,
+                           "observed": repr(got)[:800], "expected": repr(want)[:800], "stderr": rerr.decode("latin1")[-300:], "input": repr(text)})
     # python csv on --ors crlf output with an LF inside a cell
     out, err = impl_write(ctx, [{"args": ["--ocsv", "--ors", "crlf"], "recs": [[(b"a", b"p\nq")]]}])[0]
     cells = py_csv_read(out, b",")
